@@ -83,7 +83,7 @@ fn candidates(q: &str, rng: &mut Rng, thorough: bool) -> Vec<String> {
     for s in ["K", "M", "MA", "U", "POTATO", "VOLT", "OHMS", "SECOND", "HERTZ", "DB", "DBM", "PK", "RMS", "%", "/S", "V/S", "M.S", "S-1"] {
         v.push(s.to_string());
     }
-    for _ in 0..(if thorough { 400 } else { 25 }) {
+    for _ in 0..(if thorough { 2000 } else { 25 }) {
         let n = 1 + rng.below(12) as usize;
         v.push((0..n).map(|_| *rng.pick(b"ABCDEFGHJKMNOPRSTUVWXZ./-") as char).collect());
     }
